@@ -49,7 +49,38 @@ VARIANTS = {
     "delims": MARK + "<&]]>--><!--<![CDATA[\"'>" + END,
     # control characters (html2stan neutralises them), DEL
     "control": MARK + "\x01\x08\x1b\x7f<&" + END,
+    # well-formed markup AND a character XML cannot represent: html2stan raises, the callers fall back
+    # (payload class "xmlbreak" of Escape.tla); a fallback that forgets to escape would let the markup through
+    "xmlbreak": MARK + "<i/><b>\"'&lt;</b>&#60;\uffff" + END,
 }
+# judged on the pages, not compared with the model: U+00A0 only breaks the routes through docutils (it becomes the
+# undefined entity &nbsp;), form feed is a word separator for half of the parsers
+UNMODELLED_VARIANTS = {
+    "nbsp": MARK + "<i/><b>\"'\xa0</b>&#60;" + END,
+    "formfeed": MARK + "<i/><b>\"'\x0c</b>&#60;" + END,
+}
+
+
+# every separator of str.splitlines() (what docutils splits its input with) except "\n"
+LINE_SEPARATORS = {"cr": "\r", "vt": "\x0b", "ff": "\x0c", "fs": "\x1c", "gs": "\x1d", "rs": "\x1e", "nel": "\x85",
+                   "ls": "\u2028", "ps": "\u2029"}
+RAWTAIL = MARK + "raw</i>" + END
+
+
+def linesep_payload(sep: str) -> str:
+    """A text that is ONE string for Python but, for a reST parser, a line followed by a raw directive."""
+    return f"{MARK}<x{sep}.. raw:: html{sep}{sep}   <i>{RAWTAIL}"
+
+
+LINESEP_VARIANTS = {f"linesep-{n}": linesep_payload(c) for n, c in LINE_SEPARATORS.items()}
+
+
+def payload_class(planted: str, kind: str = "") -> str:
+    """Escape.tla's payload class."""
+    if kind == "deprecated" and any(c in planted for c in LINE_SEPARATORS.values()):
+        return "linesep"        # the text is interpolated into reST source and holds a line separator
+    return "xmlbreak" if _ILLEGAL_XML.search(neutral(planted)) else "plain"
+
 _ILLEGAL_XML = re.compile("[^\x09\x0A\x0D\x20-퟿-�\U00010000-\U0010FFFF]")
 
 
@@ -75,7 +106,11 @@ def forms(p: str) -> List[str]:
 
 
 def forms_for(kind: str, p: str) -> List[str]:
-    return forms(p)
+    fs = forms(p)
+    if RAWTAIL in p or placeholder(RAWTAIL) in p:
+        head = p[:len(MARK) + 2]
+        fs += forms(head) + [RAWTAIL, placeholder(RAWTAIL)]
+    return fs
 
 
 def nolt(p: str) -> str:
@@ -90,7 +125,7 @@ def fname(p: str) -> str:
 PYVAL_KINDS = ["strconst", "default", "annotation", "decoarg", "baseexpr", "typealias"]
 KINDS = (["modname"] + [f"doc.{f}" for f in DOCFORMATS] + [f"field.{f}" for f in DOCFORMATS if f != "plaintext"]
          + ["xref.epytext", "xref.restructuredtext", "doctest.epytext", "doctest.restructuredtext"]
-         + PYVAL_KINDS + ["projname", "projurl"])
+         + PYVAL_KINDS + ["deprecated", "projname", "projurl"])
 
 
 def payload_for(kind: str, p: str) -> str:
@@ -156,6 +191,11 @@ def gen(kind: str, p: str) -> Dict[str, Any]:
             "typealias": f'Alias: typing.TypeAlias = typing.Dict[str, Literal[{R}]]\n"""Doc of alias."""\nAlias2 = typing.Union[Literal[{R}], int]\n"""Doc."""\n',
         }[kind]
         files["zpkg/amod.py"] = pre + body
+    elif kind == "deprecated":
+        # extensions/deprecate.py interpolates the replacement= string into reST source
+        files["zpkg/amod.py"] = ('"""Module."""\nfrom twisted.python.deprecate import deprecated\nfrom incremental import Version\n'
+                                 f'@deprecated(Version("Twisted", 16, 0, 0), replacement={R})\ndef ffun():\n    "doc"\n'
+                                 f'class Dcls:\n    "doc"\n    @deprecated(Version("Twisted", 16, 0, 0), {R})\n    def meth(self):\n        "doc"\n')
     elif kind == "projname":
         files["zpkg/amod.py"] = '"""Module."""\nclass Dcls:\n    "doc"\n'
         args += ["--project-name", p]
@@ -669,17 +709,19 @@ def run(ctx: Ctx) -> int:
         raise MachineryError("Escape.tla printed no (kind, sink) pair")
     ctx.exhaustive = True
     ctx.extra["design_level_invariants_violated"] = list(r.violated)
-    model: Dict[str, Dict[str, Any]] = {}
+    model: Dict[Tuple[str, str], Dict[str, Any]] = {}
     for pr in pairs:
-        m = model.setdefault(pr["kind"], {"sinks": set(), "steps": set(), "pairs": []})
-        m["sinks"].add((pr["zone"], pr["ctx"], bool(pr["quoted"]), pr["final"]))
+        m = model.setdefault((pr["kind"], pr["cls"]), {"sinks": set(), "steps": set(), "pairs": []})
+        if pr["reaches"]:
+            m["sinks"].add((pr["zone"], pr["ctx"], bool(pr["quoted"]), pr["final"]))
         m["steps"] |= {tuple(x) for x in pr["steps"]}
         m["pairs"].append(pr)
-    unknown = sorted(set(model) - set(KINDS))
+    unknown = sorted({k for k, _ in model} - set(KINDS))
     if unknown:
         raise MachineryError(f"Escape.tla enumerates source kinds the harness cannot plant: {unknown}")
-    kinds = [k for k in KINDS if k in model]
+    kinds = [k for k in KINDS if (k, "plain") in model]
     plan: List[Tuple[str, str, str, bool]] = [(k, v, p, True) for k in kinds for v, p in VARIANTS.items()]
+    plan += [(k, v, p, False) for k in kinds for v, p in UNMODELLED_VARIANTS.items()]
     for k in kinds:
         for i in range(2 if ctx.quick else 100):
             plan.append((k, f"random{i}", random_payload(rng), False))
@@ -697,7 +739,7 @@ def run(ctx: Ctx) -> int:
         raise MachineryError(f"generator produced invalid input: {gen_errors[:3]}")
     observed_records: List[Any] = []
     twin: List[Any] = []
-    pair_seen: Dict[Tuple[str, str, str, bool], Set[int]] = {}
+    pair_seen: Dict[Tuple[str, str, str, str, bool], Set[int]] = {}
     not_intact = 0
     for i, (k, v, p, modelled) in enumerate(plan):
         can, pla = results[2 * i], results[2 * i + 1]
@@ -724,7 +766,8 @@ def run(ctx: Ctx) -> int:
                 observed_records.append(None)
             continue
         not_intact += sum(1 for o in can["occ"] if o["level"] == -1)
-        for b in judge_pair(can, pla, strict_appears=modelled):
+        cls = payload_class(can["payload"])
+        for b in judge_pair(can, pla, strict_appears=modelled and bool(model[(k, cls)]["sinks"])):
             if b["invariant"] == "SkeletonEqual":
                 b["where"] = skeleton_diff(jobs[2 * i], jobs[2 * i + 1], b["page"])
             ctx.violation({**b, "kind": k, "variant": v, "payload": can["payload"], "placeholder": pla["payload"],
@@ -732,23 +775,23 @@ def run(ctx: Ctx) -> int:
         sinks = sink_set(can)
         events = [list(e) for e in can["events"]]
         if modelled:
-            m = model[k]
+            m = model[(k, cls)]
             obs_s = {tuple(x) for x in sinks if x[3] != -1}
             obs_e = {tuple(e) for e in events}
             d = {"sinks_not_in_model": sorted(obs_s - m["sinks"], key=str), "model_sinks_not_seen": sorted(m["sinks"] - obs_s, key=str),
                  "steps_not_in_model": sorted(obs_e - m["steps"], key=str), "model_steps_not_seen": sorted(m["steps"] - obs_e, key=str)}
             twin.append(d)
             if any(d.values()):
-                ctx.drift_note({"kind": k, "variant": v, **{a: b for a, b in d.items() if b}})
+                ctx.drift_note({"kind": k, "variant": v, "payload_class": cls, **{a: b for a, b in d.items() if b}})
             for s in obs_s:
-                pair_seen.setdefault((k, s[0], s[1], s[2]), set()).add(s[3])
-            observed_records.append({"kind": k, "variant": v, "sinks": [list(x) for x in sinks if x[3] != -1], "events": events})
+                pair_seen.setdefault((k, cls, s[0], s[1], s[2]), set()).add(s[3])
+            observed_records.append({"kind": k, "variant": v, "cls": cls, "sinks": [list(x) for x in sinks if x[3] != -1], "events": events})
         if i % 11 == 0:
             ctx.sample({"kind": k, "variant": v, "payload": can["payload"], "sinks": sinks[:6], "events": events,
                         "pages": len(can["pages"]), "skeleton_equal": not any(b["invariant"] == "SkeletonEqual" for b in judge_pair(can, pla, False))})
     # every enumerated pair must have been met in the real pages, at the level the model says
-    unmet = [[pr["kind"], pr["zone"], pr["ctx"], pr["quoted"]] for pr in pairs
-             if pr["final"] not in pair_seen.get((pr["kind"], pr["zone"], pr["ctx"], bool(pr["quoted"])), set())]
+    unmet = [[pr["kind"], pr["cls"], pr["zone"], pr["ctx"], pr["quoted"]] for pr in pairs if pr["reaches"]
+             and pr["final"] not in pair_seen.get((pr["kind"], pr["cls"], pr["zone"], pr["ctx"], bool(pr["quoted"])), set())]
     ctx.extra["enumerated_pairs"] = len(pairs)
     ctx.extra["pairs_not_met_at_model_level"] = unmet[:20]
     ctx.extra["occurrences_where_the_markup_language_changed_the_text"] = not_intact
@@ -843,7 +886,7 @@ def replay(ctx: Ctx, path: str) -> int:
     if rc_["rc"] == "exception" and rp_["rc"] != "exception":
         bad = [{"invariant": "RunCompletes"}]
     else:
-        bad = judge_pair(rc_, rp_, strict_appears=w.get("variant") in VARIANTS)
+        bad = judge_pair(rc_, rp_, strict_appears=w.get("variant") in VARIANTS and w.get("variant") != "xmlbreak")
     names = sorted({b["invariant"] for b in bad})
     print("replay:", "still violated: " + ",".join(names) if bad else "holds now")
     if bad:
